@@ -23,7 +23,7 @@ CLAIMS = {
             "Lean 4 theorems over a hand-written model + differential correspondence (line protocol)", "§4 C02"),
     "C03": ("Refinement of the write state machine (transcription of state.rs: interleaved key/value counter, parent slot claimed before push, parent stack) to a grammar zipper (Spec/Grammar.lean: path of open containers with completed pairs / waiting key / items, statuses as documented in api/README.md). "
             "C03_state_machine_is_the_source_text: every method of state.rs is translated on every run by extract/rs2lean.py (symbolic execution of the Rust bodies, early returns, `*self = ..`, payload counters, swap_and_push, pop().unwrap_or(End)) into Gen/FnsState.lean and proved equal to the model, so the theorems are re-checked against what the source says now. Theorems: C03_call_answered_by_grammar (in EVERY reachable state, any nesting depth and fill level, each of the operations gets exactly the grammar's status and the state afterwards stands for the grammar's document), C03_history_answered_by_grammar (every finite call sequence, continuing after errors and after completion), "
-            "C03_complete_iff_root_closed (finalisation succeeds iff the grammar's document is complete), C03_complete_is_final, C03_reject_noop (a rejected call leaves output bytes, position and parent stack unchanged, for every state and operation). "
+            "C03_language_of_the_grammar / C03_accepted_complete_sequences_are_trees (a call sequence is accepted call by call and finalisation then succeeds IFF it is the token string of a tree: one root value, objects = declared number of string-key/value pairs then finish, arrays = declared number of values then finish, any nesting), C03_complete_iff_root_closed (finalisation succeeds iff the grammar's document is complete), C03_complete_is_final, C03_reject_noop (a rejected call leaves output bytes, position and parent stack unchanged, for every state and operation). "
             "Tie: status of every call, output snapshot and finalisation compared with the real crates on random long sequences, all sequences up to length 4 over a 14-letter alphabet, and 32-bit lengths (2^31, 2^32-1) under miri/i686.",
             TB + "miri (32-bit runs). The model uses unbounded naturals for the counters; the 32-bit wrap-around of the key/value counter (F1) is covered by the miri runs, not by the theorem.", "Lean 4 refinement theorem + differential correspondence + exhaustive short sequences", "§4 C03"),
     "C04": ("Theorems about the instruction lists the current trampoline source emits (regenerated into Gen/Glue.lean on every run by running the real TrampolineCodegen on a fixed family of three guest modules): for all arguments, both memories, every calling context and every provider response, "
